@@ -326,3 +326,51 @@ def leaf_specs(sc: Circuit, monotone: bool, normalized: bool = False) -> dict:
 
 def describe(d: dict) -> str:
     return ",".join(f"{k}={v}" for k, v in sorted(d.items()))
+
+
+# ---------------------------------------------------------------------------------------------
+# operator pipelines
+# ---------------------------------------------------------------------------------------------
+
+
+def apply_ops(sc: Circuit, ops: list, base_desc: dict | None = None) -> Circuit:
+    import cirkit.symbolic.functional as SF
+
+    cur = sc
+    for op in ops:
+        name = op[0]
+        if name == "integrate":
+            scope = None if len(op) < 2 or op[1] is None else Scope(op[1])
+            cur = SF.integrate(cur, scope=scope)
+        elif name == "square":
+            cur = SF.multiply(cur, cur)
+        elif name == "multiply_other":
+            other = build(op[1] if len(op) > 1 and op[1] else base_desc)
+            cur = SF.multiply(cur, other)
+        elif name == "multiply_conj":
+            cur = SF.multiply(cur, SF.conjugate(cur))
+        elif name == "differentiate":
+            cur = SF.differentiate(cur, order=op[1] if len(op) > 1 else 1)
+        elif name == "evidence":
+            cur = SF.evidence(cur, {int(k): v for k, v in op[1].items()})
+        elif name == "conjugate":
+            cur = SF.conjugate(cur)
+        elif name == "concatenate":
+            cur = SF.concatenate([cur] * (op[1] if len(op) > 1 else 2))
+        else:
+            raise ValueError(name)
+    return cur
+
+
+def build_pipe(d: dict) -> Circuit:
+    base = build(d["base"])
+    return apply_ops(base, d["ops"], d["base"])
+
+
+_build0 = build
+
+
+def build(d: dict) -> Circuit:  # noqa: F811
+    if d["kind"] == "pipe":
+        return build_pipe(d)
+    return _build0(d)
